@@ -80,6 +80,7 @@ func main() {
 	list := flag.Bool("list", false, "list obligations")
 	repo := flag.String("repo", "/repo", "repository to analyse")
 	noctl := flag.Bool("nocontrols", false, "skip positive controls (development)")
+	discover := flag.String("discover", "", "development: print candidate sites (exhaust)")
 	flag.Parse()
 	repoDir = *repo
 	if v := os.Getenv("VERIF_DIR"); v != "" {
@@ -100,6 +101,18 @@ func main() {
 	seed := 0
 	if v := os.Getenv("VERIF_SEED"); v != "" {
 		seed, _ = strconv.Atoi(v)
+	}
+	if *discover != "" {
+		p, err := Load(nil)
+		if err != nil {
+			fmt.Println(err)
+			os.Exit(2)
+		}
+		switch *discover {
+		case "exhaust":
+			discoverExhaust(p)
+		}
+		return
 	}
 	if *selftest {
 		os.Exit(runSelftest(*prop))
